@@ -15,7 +15,7 @@ import itertools
 
 from .common import *   # noqa: F401,F403
 from pyvc.core import Builtin
-from . import C01, C02, C05, C16
+from . import C01, C02, C05, C08, C16
 
 GM = 'propka.group.'
 
@@ -197,20 +197,24 @@ def task_interactions(pr, repo):
     ex.contracts.pop(E + 'hydrogen_bond_energy', None)
 
     # backbone determinants with missing atoms
-    for n_t, n_b in itertools.product((0, 1), (0, 1)):
-        def t_bb(ex, ctx, n_t=n_t, n_b=n_b):
-            ta = [hyd('t%d' % i) for i in range(n_t)]
-            ba = [heavy('b%d' % i) for i in range(n_b)]
-            tg = grp('tg', 'HIS', ta, ta)
-            bb = grp('bb', 'BBC', ba, ba)
-            try:
-                ex.call_function(repo.func('propka.determinants.set_backbone_determinants'), [[tg], [bb], version(ctx)])
-            except PyRaise as e:
-                ctx.oblige('BB[%d/%d]: set_backbone_determinants raises %s' % (n_t, n_b, e.exc_name), False)
-                raise
-            ctx.oblige('BB[titratable atoms %d, backbone atoms %d]: completes (its assertions hold); no determinant without atoms on both sides' %
-                       (n_t, n_b), True if (n_t and n_b) else len(tg.attrs['determinants']['backbone']) == 0)
-        pr.explore(ex, t_bb, 'set_backbone_determinants %d/%d' % (n_t, n_b))
+    # (BBC | BBN) x (titratable side: hydrogens | heavy atoms) x (backbone atom: bare heavy atom without any bond left - both its
+    # neighbours deleted - | hydrogen on its nitrogen)
+    for btype, ttype, bkind in itertools.product(('BBC', 'BBN'), ('HIS', 'COO'), ('bare', 'hydrogen')):
+        for n_t, n_b in itertools.product((0, 1), (0, 1)):
+            def t_bb(ex, ctx, n_t=n_t, n_b=n_b, btype=btype, ttype=ttype, bkind=bkind):
+                ta = [(hyd if ttype == 'HIS' else heavy)('t%d' % i) for i in range(n_t)]
+                ba = [(heavy if bkind == 'bare' else hyd)('b%d' % i) for i in range(n_b)]
+                tg = grp('tg', ttype, ta, ta)
+                bb = grp('bb', btype, ba, ba)
+                what = '%s/%s, backbone atom %s, titratable atoms %d, backbone atoms %d' % (btype, ttype, bkind, n_t, n_b)
+                try:
+                    ex.call_function(repo.func('propka.determinants.set_backbone_determinants'), [[tg], [bb], version(ctx)])
+                except PyRaise as e:
+                    ctx.oblige('BB[%s]: set_backbone_determinants raises %s' % (what, e.exc_name), False)
+                    raise
+                ctx.oblige('BB[%s]: completes (its assertions hold); no determinant without atoms on both sides' % what,
+                           True if (n_t and n_b) else len(tg.attrs['determinants']['backbone']) == 0)
+            pr.explore(ex, t_bb, 'set_backbone_determinants %s %s %s %d/%d' % (btype, ttype, bkind, n_t, n_b))
 
 
 def task_reject(pr, repo):
@@ -302,7 +306,9 @@ def task_placement_safety(pr, repo):
 
 def run(pr, repo):
     pr.parallel([(task_setup_atoms, ()), (task_placement_safety, ()), (task_interactions, ()), (task_reject, ()), (task_precheck, ()), (C05.task_smallest, ()),
-                 (C01.task_classify, ()), (C01.task_setup, ())])
+                 (C01.task_classify, ()), (C01.task_setup, ()),
+                 # a group that only some conformation still has (atoms missing in model 1) is still reported in the average
+                 (C08.task_average, (2,))])
     pr.assumptions += ['protonation inside setup_atoms is abstracted to "adds 0, 1 or 2 hydrogens bonded to that atom"',
                        'the pipeline as a whole is NOT proved exception free (ligand typing, ring search and hydrogen placement '
                        'rescale vectors that are zero for coincident/collinear atoms): bounded deletion monitor',
